@@ -105,6 +105,32 @@ def _task(args):
                 for name, fn in whole_renderings(prio, pgn, src, dst, payload).items():
                     results[name] = attempt(fn, NMEA2000Decoder())
                     st["decodes"] += 1
+                # the same renderings again on one long-lived decoder (whole-message formats first, then
+                # frame-level ones, and the reverse): what a format returns must not depend on which
+                # formats the decoder has served before
+                if (st["frames"] % 3 == 0 or defn.fast) and len(payload) <= 223:
+                    for order in ("whole_first", "frames_first"):
+                        shared = NMEA2000Decoder()
+                        seq = []
+                        whole = list(whole_renderings(prio, pgn, src, dst, payload).items())
+                        if defn.fast:
+                            frames = wire.fast_frames((prio + src + 3) & 7, payload, None)
+                            frame_level = [(name, frames) for name in ("ebyte", "usb", "yd_R", "plain_dash")]
+                        else:
+                            frame_level = [(name, [payload]) for name in ("ebyte", "usb", "yd_R", "plain_dash")] if len(payload) <= 8 else []
+                        plan = (whole + frame_level) if order == "whole_first" else (frame_level + whole)
+                        for name, what in plan:
+                            if isinstance(what, list):
+                                last, early = None, False
+                                for i, fr in enumerate(what):
+                                    last = attempt(single_renderings(prio, pgn, src, dst, fr)[name], shared)
+                                    st["decodes"] += 1
+                                    if last is not None and i < len(what) - 1:
+                                        early = True
+                                results[f"shared/{order}/{name}"] = ("early",) if early else last
+                            else:
+                                results[f"shared/{order}/{name}"] = attempt(what, shared)
+                                st["decodes"] += 1
                 st["frames"] += 1
                 vals = list(results.values())
                 decoded = [v for v in vals if isinstance(v, tuple) and len(v) > 1]
@@ -169,6 +195,7 @@ def run(ctx):
     }
     return {"coverage": cov, "violations": vios,
             "assumptions": ["renderings written from the format descriptions (mc/wire.py)",
+                            "besides a fresh decoder per rendering, the renderings are fed to one shared decoder in two orders (history independence)",
                             "broadcast (PDU2) PGNs are rendered with destination 255 in the formats that carry an explicit destination"]}
 
 
